@@ -29,10 +29,12 @@ func (t *WeightedMerkleTrie) GetPath(keys [][]byte) ([]byte, error) {
 		}
 	}
 
-	if len(keys) > 10 {
+	// the parallel collection splits the work by the root branch's children; a root
+	// that is not a branch (shared-prefix node, single entry) is walked sequentially
+	if node, ok := t.root.(*routingNode); ok && len(keys) > 10 {
 		eg, _ := errgroup.WithContext(context.TODO())
 		eg.SetLimit(5)
-		if node, ok := t.root.(*routingNode); ok {
+		{
 			node.toCollect = true
 			var branchMu = [16]sync.Mutex{}
 			for i := 0; i < len(keys); i++ {
